@@ -166,5 +166,6 @@ pub(crate) fn resolve_partial<Fd: AsFd>(
         }
     }
 
-    unreachable!("partial_ancestors should include root path which must be resolvable");
+    // Even the last ancestor (the root itself) could not be resolved: report why.
+    Err(last_error)
 }
